@@ -350,6 +350,12 @@ malformed_kind_harness!(c06_k2_first_wrong_shape, 2, M2, b"t", 0, 2);
 malformed_kind_harness!(c06_k2_second_wrong_shape, 2, M2, b"t", 1, 2);
 
 handle_harness!(c01_k1_d_flags, 8, 1, M1, b"t", NOFAIL, SOMEFLAGS, [D, D, D]);
+const OTHERFLAGS: Flags = Flags {
+    more: Some(false),
+    oneway: Some(true),
+    upgrade: Some(true),
+};
+handle_harness!(c01_k2_dd_flags2, 8, 2, M2, b"t", NOFAIL, OTHERFLAGS, [D, D, D]);
 handle_harness!(c01_k2_dd, 8, 2, M2, b"t", NOFAIL, NOFLAGS, [D, D, D]);
 handle_harness!(c01_k2_nd, 8, 2, M2, b"t", NOFAIL, NOFLAGS, [NO, D, D]);
 handle_harness!(c01_k2_dn, 8, 2, M2, b"t", NOFAIL, NOFLAGS, [D, NO, D]);
@@ -471,3 +477,116 @@ cut_harness!(c02_cut2, 2);
 cut_harness!(c02_cut3, 3);
 cut_harness!(c02_cut4, 4);
 cut_harness!(c02_cut5, 5);
+
+// ---- C02: an upgraded connection: handle(.., Some(interface)) hands the whole stream over ----
+// The next handle() call after an upgrade must route straight to the upgraded handler: nothing is
+// parsed as a varlink message, the handler can read every byte in order, and what it reports as
+// unread comes back as the tail together with the interface name.
+
+pub static mut UP_SEEN: [u8; 8] = [0; 8];
+pub static mut UP_N: usize = 0;
+pub static mut UP_CALLS: usize = 0;
+pub static mut UP_IFACE_OK: bool = false;
+pub static mut UP_KEEP: usize = 0;
+
+/// stands for the private VarlinkService::call_upgraded (table lookup + the interface's upgraded
+/// handler): reads the stream to its end through the reader it is given, keeps the last UP_KEEP
+/// bytes as "unread"
+pub fn upgraded_model(
+    _svc: &VarlinkService,
+    iface: &str,
+    _call: &mut Call,
+    bufreader: &mut dyn std::io::BufRead,
+) -> crate::Result<Vec<u8>> {
+    unsafe {
+        UP_CALLS += 1;
+        UP_IFACE_OK = super::tagser::key_eq(iface, "a.b");
+    }
+    let mut rounds = 0;
+    while rounds < 4 {
+        let n = match bufreader.fill_buf() {
+            Ok(b) => {
+                let mut i = 0;
+                while i < b.len() {
+                    unsafe {
+                        if UP_N < 8 {
+                            UP_SEEN[UP_N] = b[i];
+                        }
+                        UP_N += 1;
+                    }
+                    i += 1;
+                }
+                b.len()
+            }
+            Err(_) => 0,
+        };
+        if n == 0 {
+            break;
+        }
+        bufreader.consume(n);
+        rounds += 1;
+    }
+    let keep = unsafe { UP_KEEP };
+    let mut unread = Vec::with_capacity(2);
+    let total = unsafe { UP_N };
+    let mut i = total - keep;
+    while i < total {
+        unread.push(unsafe { UP_SEEN[i] });
+        i += 1;
+    }
+    Ok(unread)
+}
+
+#[kani::proof]
+#[kani::unwind(10)]
+#[kani::stub(core::slice::memchr::memchr, stubs::naive_memchr)]
+#[kani::stub(core::slice::memchr::memrchr, stubs::memrchr_guarded)]
+#[kani::stub(std::io::BufReader::new, stubs::small_bufreader)]
+#[kani::stub(serde_json::to_string, stubs::to_string)]
+#[kani::stub(serde_json::to_value, stubs::to_value)]
+#[kani::stub(serde_json::from_slice, stubs::from_slice)]
+#[kani::stub(alloc::fmt::format, stubs::format)]
+#[kani::stub(alloc::string::String::from_utf8_lossy, stubs::from_utf8_lossy)]
+#[kani::stub(std::hash::RandomState::new, stubs::fixed_random_state)]
+#[kani::stub(crate::VarlinkService::call, dispatch_model)]
+#[kani::stub(crate::VarlinkService::call_upgraded, upgraded_model)]
+#[kani::stub(crate::Call::reply_interface_not_found, inf_model)]
+fn c02_upgraded_entry() {
+    // the upgraded protocol's bytes are arbitrary (NULs included): nothing may be framed or parsed
+    let (data, keep) = draw_upgraded(&mut KSrc);
+    unsafe {
+        UP_KEEP = keep;
+        stubs::reset();
+        stubs::N_PARSE = 0;
+    }
+    let svc = empty_service();
+    let mut r = ArrR::<5>::new(data, 5);
+    let mut w = RecW::new();
+    let res = svc.handle(&mut r, &mut w, Some(String::from("a.b")));
+    let (calls, n, iface_ok, parsed) = unsafe { (UP_CALLS, UP_N, UP_IFACE_OK, stubs::N_PARSE) };
+    kani::cover!(keep == 1, "handler leaves one byte unread");
+    assert!(calls == 1 && iface_ok, "P:c02.upgraded_call_goes_to_the_upgraded_interface");
+    assert!(parsed == 0 && unsafe { DISPATCHED } == 0, "P:c02.upgraded_stream_is_not_parsed_as_messages");
+    assert!(w.writes == 0, "P:c02.handle_writes_nothing_on_an_upgraded_stream");
+    assert!(n == 5, "P:c02.upgraded_handler_can_read_every_byte_exactly_once");
+    let mut i = 0;
+    while i < 5 {
+        assert!(unsafe { UP_SEEN[i] } == data[i], "P:c02.upgraded_handler_reads_bytes_in_order");
+        i += 1;
+    }
+    match &res {
+        Ok((tail, up)) => {
+            assert!(tail.len() == keep, "P:c02.unread_bytes_come_back_as_tail");
+            if keep == 1 {
+                assert!(tail[0] == data[4], "P:c02.unread_bytes_come_back_as_tail");
+            }
+            match up {
+                Some(name) => assert!(super::tagser::key_eq(name, "a.b"), "P:c02.connection_stays_upgraded_to_the_same_interface"),
+                None => assert!(false, "P:c02.connection_stays_upgraded_to_the_same_interface"),
+            }
+        }
+        Err(_) => assert!(false, "P:c02.upgraded_call_is_not_an_error"),
+    }
+    std::mem::forget(res);
+    std::mem::forget(svc);
+}
